@@ -383,25 +383,40 @@ func c08Rotate(c *Ctx, rp string) {
 		return
 	}
 	name := "rotation.RotateRootCertificates"
-	creates := callsNamed(F, "crypto/x509.CreateCertificate")
-	if len(creates) != 1 {
-		r.Unk(rule2, name+" CreateCertificate", p.Pos(F.Pos()), fmt.Sprintf("%d minting calls, want 1", len(creates)))
+	// the minting may live in a helper / method the function was split into: the
+	// template part of the rule is evaluated in that function, with its
+	// parameters standing for the arguments
+	createSites := core.SplitCalls(F, nil, "crypto/x509.CreateCertificate")
+	if len(createSites) != 1 {
+		r.Unk(rule2, name+" CreateCertificate", p.Pos(F.Pos()), fmt.Sprintf("%d minting calls, want 1", len(createSites)))
 		return
 	}
-	cc := creates[0]
-	tmpl, ok := core.Strip(cc.Call.Args[1]).(*ssa.Alloc)
+	cc := createSites[0].Instr.(*ssa.Call)
+	M := createSites[0].Fn
+	if M != F {
+		r.Fn(core.FuncName(M))
+	}
+	proceed := false
+	var ts map[string][]fieldStore
+	var tmpl *ssa.Alloc
+	var decide *ssa.Function
+	var newRoot *ssa.Alloc
+	var gNext core.Guard
+	createSites[0].In(func() {
+	var ok bool
+	tmpl, ok = core.Strip(cc.Call.Args[1]).(*ssa.Alloc)
 	if !ok {
 		r.Unk(rule2, name+" template", p.Pos(cc.Pos()), "template is not a local literal")
 		return
 	}
-	ts := storesOf(tmpl)
+	ts = storesOf(tmpl)
 	scc := sccOf(cc.Block())
 	var header *ssa.BasicBlock
 	if scc != nil {
 		header = loopHeader(scc)
 	}
 	// kind == "next" guard
-	gNext := core.Guard{Name: "kind == NextId", Match: func(cond ssa.Value) (int, bool) {
+	gNext = core.Guard{Name: "kind == NextId", Match: func(cond ssa.Value) (int, bool) {
 		bo, ok := cond.(*ssa.BinOp)
 		if !ok {
 			return 0, false
@@ -455,7 +470,7 @@ func c08Rotate(c *Ctx, rp string) {
 		}
 		shiftTerms[f] = shiftForm.Terms[0]
 		shiftBlocks = append(shiftBlocks, shiftSt.Block())
-		res := core.CutReach(p, F, gNext, shiftSt.Block())
+		res := core.CutReach(p, M, gNext, shiftSt.Block())
 		r.CutOb(p, rule2, name+" template."+f+" shift only when minting next", p.Pos(shiftSt.Pos()), res, gNext)
 	}
 	// the shift term: (until(ts:NotAfter))/2 of the current root
@@ -463,22 +478,27 @@ func c08Rotate(c *Ctx, rp string) {
 	r.Check(shiftTerms["NotBefore"] == wantShift && shiftTerms["NotAfter"] == wantShift, rule2, name+" shift = half of current's remaining life, both ends", p.Pos(tmpl.Pos()),
 		"both ends shifted by time.Until(current.NotAfter)/2", fmt.Sprintf("NotBefore shift %q, NotAfter shift %q, expected %q for both", shiftTerms["NotBefore"], shiftTerms["NotAfter"], wantShift))
 	// whose NotAfter: the root that will be current (carried or newly minted)
-	decide := decideFunc(c, rule2)
-	var newRoot *ssa.Alloc
-	for _, b := range F.Blocks {
-		for _, in := range b.Instrs {
-			if al, ok := in.(*ssa.Alloc); ok && namedType(al.Type(), typesPkg, "RootCertificate") {
-				newRoot = al
+	decide = decideFunc(c, rule2)
+	for _, mf := range []*ssa.Function{F, M} {
+		for _, b := range mf.Blocks {
+			for _, in := range b.Instrs {
+				if al, ok := in.(*ssa.Alloc); ok && namedType(al.Type(), typesPkg, "RootCertificate") {
+					newRoot = al
+				}
 			}
 		}
 	}
 	okSrc := newRoot != nil
+	isNewRoot := func(v ssa.Value) bool {
+		pp := core.PathOf(v)
+		return len(pp.Fields) == 0 && pp.Root == ssa.Value(newRoot)
+	}
 	nUntil := 0
-	for _, uc := range callsNamed(F, "time.Until") {
+	for _, uc := range callsNamed(M, "time.Until") {
 		tf := core.TimeFormOf(uc.Call.Args[0])
 		nUntil++
 		for _, src := range flattenPhi(tf.Root) {
-			if core.IsNilConst(src) || src == ssa.Value(newRoot) {
+			if core.IsNilConst(src) || src == ssa.Value(newRoot) || isNewRoot(src) {
 				continue
 			}
 			if dc, di := core.CallResult(src); dc != nil && di == 1 && dc.Common().StaticCallee() == decide {
@@ -491,7 +511,7 @@ func c08Rotate(c *Ctx, rp string) {
 	// stamps after the shift
 	for _, f := range []string{"NotBefore", "NotAfter"} {
 		okSt := false
-		for _, st := range storesToField(F, "types.RootCertificate", f) {
+		for _, st := range storesToField(M, "types.RootCertificate", f) {
 			if core.PathOf(st.Addr).Root != ssa.Value(newRoot) {
 				continue
 			}
@@ -519,6 +539,7 @@ func c08Rotate(c *Ctx, rp string) {
 	if !full {
 		return
 	}
+	proceed = true
 
 	// R-C08.3
 	r3 := "R-C08.3"
@@ -542,7 +563,7 @@ func c08Rotate(c *Ctx, rp string) {
 	okKey := gk != nil && gk == gk2 && gi == 0 && gi2 == 1 && core.CalleeName(gk.Common()) == "crypto/ed25519.GenerateKey"
 	r.Check(okKey, r3, name+" key pair", p.Pos(cc.Pos()), "public and private key from one ed25519.GenerateKey", "certificate public key and signing key are not one generated pair")
 	okPk := false
-	for _, st := range storesToField(F, "types.RootCertificate", "PublicKeyPkix") {
+	for _, st := range append(storesToField(F, "types.RootCertificate", "PublicKeyPkix"), storesToFieldIf(M != F, M, "types.RootCertificate", "PublicKeyPkix")...) {
 		sc, si := core.CallResult(core.Strip(st.Val))
 		if sc != nil && si == 0 && core.CalleeName(sc.Common()) == mod+".SubjectKeyInfoAndKeyIdFromPubKey" && gk != nil && core.Strip(sc.Call.Args[0]) == extractOf(gk, 0) {
 			okPk = true
@@ -550,12 +571,19 @@ func c08Rotate(c *Ctx, rp string) {
 	}
 	r.Check(okPk, r3, name+" PublicKeyPkix", p.Pos(cc.Pos()), "derived from the generated public key", "root.PublicKeyPkix is not the generated public key (it is the AAD of the sealed private key and the certificate selector)")
 	okDer := false
-	for _, st := range storesToField(F, "types.RootCertificate", "CertificateDer") {
+	for _, st := range append(storesToField(F, "types.RootCertificate", "CertificateDer"), storesToFieldIf(M != F, M, "types.RootCertificate", "CertificateDer")...) {
 		if core.Strip(st.Val) == extractOf(cc, 0) && core.PathOf(st.Addr).Root == ssa.Value(newRoot) {
 			okDer = true
 		}
 	}
 	r.Check(okDer, r3, name+" CertificateDer", p.Pos(cc.Pos()), "the minted certificate", "root.CertificateDer is not the minted certificate")
+
+	})
+	if !proceed {
+		return
+	}
+	_ = tmpl
+	_ = ts
 
 	// R-C08.4
 	r4 := "R-C08.4"
@@ -825,4 +853,12 @@ func c09Filters(c *Ctx) {
 		}))
 		r.Check(nrel == 4, "R-C09.4", name+" number of time comparisons", p.Pos(fn.Pos()), "exactly the four validity filters", fmt.Sprintf("%d time comparisons, expected 4 (an extra, missing or duplicated filter)", nrel))
 	}
+}
+
+
+func storesToFieldIf(cond bool, fn *ssa.Function, typ, field string) []*ssa.Store {
+	if !cond {
+		return nil
+	}
+	return storesToField(fn, typ, field)
 }
